@@ -1,1 +1,5 @@
-From BT Require Import Properties.C10.
+(* Pins: the statement of every C10 theorem, so that none can be weakened silently. *)
+From BT Require Import Base.Util Base.LE Base.Float Model.RTree Model.BBIFile Model.BigWigWrite Model.BBIRead
+  Proofs.RTreeAbs Proofs.RTreeCodec Spec.FormatEmit Spec.FormatWf Model.ReadBed_C10
+  Proofs.C10Codec Proofs.C10Search Proofs.C10Sections Proofs.C10ChromTree Properties.C10.
+Local Open Scope N_scope.
